@@ -662,7 +662,7 @@ def main():
         if R.fails(h, judged) == kind:
             return R.shrink(h, kind, judged, budget=budget)
         if lines:
-            start = max(i for i in range(min(k, len(lines) - 1) + 1) if lines[i].startswith("cfg"))
+            start = max([i for i in range(min(k, len(lines) - 1) + 1) if lines[i].startswith("cfg")] or [0])
             end = k
             while end + 1 < len(lines) and not lines[end + 1].startswith(("cfg", "reset")):
                 end += 1
@@ -678,7 +678,9 @@ def main():
             k = len(r["out_i"])
             hi = line_hist[min(k, len(line_hist) - 1)]
             small = reproducer(hists, hi, k, "crash", judged, lines, budget=30)
-            c.violation("sanitizer abort / crash of the real code (stream %s)" % name,
+            hang = bool(r["out_i"]) and r["out_i"][-1].startswith("hang:")
+            c.violation(("the real code hangs: no answer within 20 s (stream %s)" if hang else
+                         "sanitizer abort / crash of the real code (stream %s)") % name,
                         {"history": small, "stream": name, "stderr": r["crashed"]["stderr"], "judged": judged})
             return
         seen = set()
